@@ -48,7 +48,7 @@ def execute(p, res):
             run_spec({"spec": spec, "tier": p["tier"]}, res)
 
 
-def point_set(pts, g, real_only):
+def point_set(pts, g, real_only, offsets=(1e-3,)):
     xs = [p.real for p in pts]
     ys = [p.imag for p in pts]
     cx, cy = (max(xs) + min(xs)) / 2, (max(ys) + min(ys)) / 2
@@ -66,7 +66,7 @@ def point_set(pts, g, real_only):
         for b in pts[:i]:
             if abs(a - b) <= (1 + 1e-4) * dm:
                 mid, d = (a + b) / 2, (a - b) / abs(a - b)
-                out += [mid + 1e-3 * dm * d, mid - 1e-3 * dm * d]
+                out += [mid + s_ * f_ * dm * d for f_ in offsets for s_ in (1, -1)]        # (1e-5 dmin: still 100 float32 ulps from the boundary)
     R = max(abs(p) for p in pts) * 10
     out += [R * cmath.exp(1j * (0.1 + 2 * math.pi * k / 16)) for k in range(16)]
     return out
@@ -149,7 +149,7 @@ def run_spec(p, res):
         return [(y, tables[0]) for y in Y]
 
     # ---------- hard decisions
-    Yh = point_set(pts, g, real_only) + (tie_points(pts, real_only) if kind == "memoryless" else [])
+    Yh = point_set(pts, g, real_only, (1e-3, 1e-4, 1e-5) if kind == "memoryless" else (1e-3,)) + (tie_points(pts, real_only) if kind == "memoryless" else [])
     for layout in (("1d", "B,N") if kind == "memoryless" or kind == "offset" else ("B,2",)):
         t, _ = present(Yh, layout)
         dps = decision_points(Yh)
